@@ -79,6 +79,9 @@ def run(repo: Repo, tier: str, res: CheckResult, seed: int = 0) -> None:
     # hidden memos anywhere in the package (functools caches and check-then-insert dictionaries): sa/memo.py
     from .. import memo
     memo.check(repo, res, "C11")
+    from .c20 import stateful_closures
+    stateful_closures(repo, res, "C11", "STATE.runtime-closure-keeps-state",
+                      "the result of a load / dump depends on the calls made before it on the same retort")
     res.assumptions = list(ASSUMPTIONS)
 
 
